@@ -192,8 +192,9 @@ class Pair:
         if kb is not None:
             self.b.set_payload_codec(kb)
         self.subs = {}          # topic -> subscription id
+        self.sub_handlers = {}  # topic -> number of handlers attached to that subscription id
         self.regs = {}          # procedure -> registration id
-        self.events = []        # (subscribed topic, details.topic, args, kwargs, details.enc_algo)
+        self.events = []        # (subscribed topic, details.topic, args, kwargs, details.enc_algo, handler index)
         self.invocations = []   # (registered proc, details.procedure, args, kwargs, details.enc_algo)
         self.progress = []      # (args, kwargs) seen by on_progress at A
         self.script = []        # what the next endpoint invocation does
@@ -226,25 +227,33 @@ class Pair:
         self.A.close_world()
 
     # -- responder set-up ----------------------------------------------------------------------
-    def ensure_sub(self, topic, match=None):
-        """Subscribe B to ``topic`` (``match`` = None | "prefix" | "wildcard"); the handler records what it is given."""
+    def ensure_sub(self, topic, match=None, handlers=1):
+        """Subscribe B ``handlers`` times to ``topic`` (``match`` = None | "prefix" | "wildcard"); the stub router answers
+        every SUBSCRIBE for the same topic with the SAME subscription id (as a broker does), so the session holds
+        ``handlers`` handlers on one subscription id.  Each handler records what it is given (+ its index)."""
         if topic in self.subs:
             return self.subs[topic]
         from autobahn.wamp.types import SubscribeOptions
 
-        def handler(*args, **kwargs):
-            d = kwargs.pop("details")
-            self.events.append((topic, d.topic, list(args), kwargs, d.enc_algo))
+        def make_handler(hidx):
+            def handler(*args, **kwargs):
+                d = kwargs.pop("details")
+                self.events.append((topic, d.topic, list(args), kwargs, d.enc_algo, hidx))
+            return handler
 
-        o = Outcome(self.b.subscribe(handler, topic, options=SubscribeOptions(match=match, details_arg="details")))
-        m = [x for x in self.B.recv() if x[0] == SUBSCRIBE]
         sid = self.next_id()
-        self.B.send([SUBSCRIBED, m[-1][1], sid])
-        assert o.results and o.results[0][0] == "ok", o.results
+        for hidx in range(handlers):
+            o = Outcome(self.b.subscribe(make_handler(hidx), topic, options=SubscribeOptions(match=match, details_arg="details")))
+            m = [x for x in self.B.recv() if x[0] == SUBSCRIBE]
+            self.B.send([SUBSCRIBED, m[-1][1], sid])
+            assert o.results and o.results[0][0] == "ok", o.results
         self.subs[topic] = sid
+        self.sub_handlers[topic] = handlers
         return sid
 
-    def ensure_reg(self, proc):
+    def ensure_reg(self, proc, match=None):
+        """Register an endpoint at B under ``proc`` (an exact URI, or a pattern with ``match`` = "prefix" | "wildcard":
+        the harness then names the concrete URI in INVOCATION.details.procedure as a dealer does)."""
         if proc in self.regs:
             return self.regs[proc]
         from autobahn.wamp.exception import ApplicationError
@@ -268,7 +277,7 @@ class Pair:
                 raise RuntimeError(*act[1])
             raise RuntimeError("bad script %r" % (act,))
 
-        o = Outcome(self.b.register(endpoint, proc, options=RegisterOptions(details_arg="details")))
+        o = Outcome(self.b.register(endpoint, proc, options=RegisterOptions(match=match, details_arg="details")))
         m = [x for x in self.B.recv() if x[0] == REGISTER]
         rid = self.next_id()
         self.B.send([REGISTERED, m[-1][1], rid])
